@@ -9,6 +9,15 @@ drawn per connection: requests consumed per ``handle()`` generator, yielded time
 yield again), raising at request r, catching or re-raising parse errors, continuing / returning / re-raising on
 ``TimeoutError``.
 
+Harness ``tcp-high-busy`` (same server, same clauses) adds the handler shape "close while the client's send lock is
+held": at the closing request the peer stops reading (link room 0-64 bytes), a second task of the handler is suspended
+inside ``client.send_packet()`` of a large response (it owns the send lock), and the handler closes the client with
+``move_on_after(d): aclose()`` / ``aclose_forcefully(client)`` / ``timeout(d): aclose()`` / plain ``aclose()``, d in
+{0, 1/64, 2/64, 8/64} s, while the peer starts reading again never / after 1-8/64 s (so the close is either cut short
+while waiting for the lock -> documented forceful close, or completes after the sender).  The handler counts as having
+closed the client from the moment the close is *started*, whatever its outcome; the generator then returns or yields
+again: no further generator may be started, the active one is closed exactly once, the socket ends closed.
+
 Oracle clauses (violation keys ``C15/<harness>/<copy|buffered>/<clause>[/<site>]``):
   sequence            the values/parse errors observed inside the handler are a prefix of the frame-by-frame reference
                       decoding of the bytes the peer wrote (exactly once, in order, across generator restarts)
@@ -33,6 +42,7 @@ import errno
 
 from easynetwork.exceptions import DeserializeError, StreamProtocolParseError
 from easynetwork.lowlevel.api_async.servers.stream import AsyncStreamServer
+from easynetwork.lowlevel.api_async.transports.utils import aclose_forcefully
 from easynetwork.lowlevel.socket import INETSocketAttribute
 from easynetwork.protocol import BufferedStreamProtocol, StreamProtocol
 from easynetwork.serializers.json import JSONSerializer
@@ -57,7 +67,11 @@ RULE = (
     "{whole, byte, fixed, random} and per-fragment delays, ended by FIN or RST; handler shape per connection: requests per handle() "
     "generator 1-4 (restart), yielded timeouts {None, 0, 1/1024, 2/64, 8/64, 32/64} s, processing sleeps, on_connection coroutine / async generator "
     "consuming 0-2 requests, aclose()/raise at request r, parse errors caught or re-raised, TimeoutError continue/return/re-raise; "
-    "selector hold/reorder/spurious readiness; rare injected recv() error. Non-trivial run = a fault kind fired and >=1 request observed."
+    "selector hold/reorder/spurious readiness; rare injected recv() error. Harness tcp-high-busy: additionally the close happens while a second "
+    "task of the handler is blocked in client.send_packet() towards a peer that stopped reading (send lock held, link room {0,1,16,64} bytes, "
+    "packet 96-1024 bytes): close shape {move_on_after(d): aclose(), aclose_forcefully(client), timeout(d): aclose(), aclose()} x d in {0,1,2,8}/64 s x "
+    "peer reads again {never, after 1,2,4,8 /64 s}, then return / yield again (close started => no new generator, generator closed once, socket closed). "
+    "Non-trivial run = a fault kind fired and >=1 request observed."
 )
 COMPONENTS_REAL = [
     "easynetwork.servers.async_tcp.AsyncTCPNetworkServer",
@@ -127,6 +141,12 @@ TIMEOUTS = (None, 8 * G, 32 * G, 2 * G, 0.0, G / 16)  # 0.0 = "only if a request
 SLEEPS = (0.0, 0.0, 4 * G, 16 * G)
 GAPS = (0, 0, 1, 2, 4, 8, 16, 32)
 A_NONE, A_CLOSE_RETURN, A_CLOSE_YIELD, A_RAISE = 0, 1, 2, 3
+# close-while-a-sender-is-blocked shapes (harness tcp-high-busy)
+B_MOVE_ON, B_FORCEFULLY, B_TIMEOUT, B_PLAIN = 0, 1, 2, 3  # move_on_after(d): aclose() / aclose_forcefully(client) / timeout(d): aclose() / aclose()
+BUSY_DEADLINES = (2 * G, 0.0, G, 8 * G)
+BUSY_RESUMES = (None, 4 * G, G, 2 * G, 8 * G)  # when the peer reads again after the blocked send started (None: never)
+BUSY_ROOMS = (16, 0, 1, 64)  # free room left in the link when the background send starts
+BUSY_SIZES = (256, 96, 1024)  # filler of the background packet (always larger than the room)
 
 
 class HandlerBoom(Exception):
@@ -174,7 +194,7 @@ def _gen_frame(world: World, rng, fam: int, k: int, i: int) -> tuple[str, bytes]
     return kind, f'{{"c":{k},"p":"'.encode() + b"\xff" + b'"}'
 
 
-def _gen_conn(world: World, fam: int, k: int, level: str, calm: bool) -> dict:
+def _gen_conn(world: World, fam: int, k: int, level: str, calm: bool, busy: bool = False) -> dict:
     rng = world.sub_rng(f"fill{k}")
     nframes = 1 + world.choose("nframes", 6)
     frames = [_gen_frame(world, rng, fam, k, i) for i in range(nframes)]
@@ -222,10 +242,28 @@ def _gen_conn(world: World, fam: int, k: int, level: str, calm: bool) -> dict:
         "recv_fail": (2 + world.choose("recv_fail_n", 6)) if not calm and world.chance("recv_fail", 1, 12) else 0,
         "filter": 0 if level == "high" else world.choose("filter", 2),  # low level: 1 = disconnect_error_filter=None
     }
+    if busy:
+        # harness tcp-high-busy: the handler closes the client while another task of the handler is blocked in
+        # client.send_packet() (the peer stopped reading), i.e. while the client's send lock is held (see Ctx.close_busy)
+        if plan["end_at"] == 0 and world.chance("busy_force_end", 3, 4):
+            plan["end_at"] = 1 + world.choose("busy_end_at", nframes)
+        if plan["end_at"]:
+            plan["end_kind"] = 1 + world.choose("busy_end_kind", 2)  # close then return / close then yield again
+            mode = world.choose("busy_mode", 4)
+            resume = world.pick("busy_resume", BUSY_RESUMES)
+            if mode == B_PLAIN and resume is None:
+                resume = BUSY_RESUMES[1]  # a close without deadline needs the peer to read again (else the handler waits for ever: its own business)
+            plan["busy"] = {
+                "mode": mode,
+                "deadline": world.pick("busy_deadline", BUSY_DEADLINES),
+                "resume": resume,
+                "room": world.pick("busy_room", BUSY_ROOMS),
+                "size": world.pick("busy_size", BUSY_SIZES),
+            }
     return {"k": k, "frames": frames, "stream": stream, "tail": tail, "t_conn": t_conn, "writes": writes, "end": end_kind, "t_end": max(t_end, t_conn), "plan": plan}
 
 
-def _gen(world: World, level: str) -> dict:
+def _gen(world: World, level: str, busy: bool = False) -> dict:
     calm = world.choose("swarm", 3) == 0  # a third of the runs: no fault kind at all (baseline)
     fam = world.choose("ser", 2)
     buffered = bool(world.choose("path", 2))
@@ -233,7 +271,7 @@ def _gen(world: World, level: str) -> dict:
         fam = 2
     mrs = world.pick("max_recv", [16384, 1, 2, 3, 5, 8, 64])
     npeers = 1 + world.choose("npeers", 3)
-    conns = [_gen_conn(world, fam, k, level, calm) for k in range(npeers)]
+    conns = [_gen_conn(world, fam, k, level, calm, busy) for k in range(npeers)]
     return {"calm": calm, "fam": fam, "buffered": buffered, "max_recv": mrs, "conns": conns, "level": level}
 
 
@@ -269,6 +307,8 @@ class Conn:
         self.resp_pending: bytes | None = None
         self.gen_index = 0
         self.disconnections = 0
+        self.bg_tasks: list[asyncio.Task] = []  # background senders started by the handler (tcp-high-busy)
+        self.bg_state: str | None = None
 
     # what the handler is going to do
     def timeout_for(self, i: int) -> float | None:
@@ -436,8 +476,11 @@ class Ctx:
                 if act in (A_CLOSE_RETURN, A_CLOSE_YIELD):
                     world.probe("handler_closes_client")
                     world.log("hclose", conn.label, i)
-                    await client.aclose()
-                    conn.handler_closed_at = i
+                    if conn.plan.get("busy") is not None:
+                        await self.close_busy(conn, client, i, conn.plan["busy"])
+                    else:
+                        await client.aclose()
+                        conn.handler_closed_at = i
                     if act == A_CLOSE_RETURN:
                         return
             if low:
@@ -446,6 +489,81 @@ class Ctx:
             rec.finallies += 1
             rec.active = False
             world.log("genfin", conn.label, kind)
+
+    # -------------------------------------------------------------------- close while the send lock is held
+    async def bg_send(self, conn: Conn, client, size: int, started: asyncio.Event) -> None:
+        """Second task of the handler: one large response to a peer that does not read -> suspended inside
+        client.send_packet() with the client's send lock held."""
+        world = self.world
+        tag = f"{conn.k}.bg." + "B" * size
+        packet = tag if self.sc["fam"] == 0 else {"r": tag}
+        conn.resp_pending = self.encode(packet)
+        conn.bg_state = "sending"
+        world.log("bg_send", conn.label, size)
+        started.set()
+        try:
+            await client.send_packet(packet)
+        except asyncio.CancelledError:
+            conn.bg_state = "cancelled"
+            raise
+        except Exception as exc:
+            # the connection was closed under the blocked send: which error it gets is not C15's business
+            conn.bg_state = "failed"
+            world.log("bg_failed", conn.label, type(exc).__name__)
+        else:
+            conn.bg_state = "sent"
+            conn.resp_done.append(conn.resp_pending)
+            conn.resp_pending = None
+            world.log("bg_sent", conn.label)
+            world.probe("busy_sender_completed")
+
+    async def close_busy(self, conn: Conn, client, i: int, busy: dict) -> None:
+        """The handler closes the client while another of its tasks holds the client's send lock (blocked send_packet(),
+        the peer does not read): client.aclose() has to wait for the lock and is, depending on the drawn shape, cut short
+        by a deadline / aclose_forcefully() (documented: the client is then closed forcefully), or completes once the
+        peer reads again.  Whatever the outcome, from here on the handler has closed the client."""
+        world = self.world
+        backend = client.backend()
+        pipe = conn.srv.tx_pipe
+        conn.peer.pause_reading()  # counts the fault kind peer_stops_reading
+        pipe.capacity = len(pipe.flight) + len(pipe.rx) + busy["room"]
+        world.fault("capacity_small")
+        started = asyncio.Event()
+        task = asyncio.create_task(self.bg_send(conn, client, busy["size"], started), name=f"c15-bg-{conn.label}")
+        conn.bg_tasks.append(task)
+        await started.wait()
+        await asyncio.sleep(0)  # the sender is now suspended in its first flush (or already failed: peer gone)
+        if busy["resume"] is not None:
+            world.after(busy["resume"], lambda: (None if conn.rst_done else conn.peer.resume_reading()))
+        blocked = conn.bg_state == "sending"
+        if blocked:
+            world.probe("close_while_sender_blocked")
+        world.log("hclose_busy", conn.label, i, busy["mode"], blocked)
+        conn.handler_closed_at = i  # the close starts here; its outcome does not matter for the clauses
+        mode = busy["mode"]
+        if mode == B_MOVE_ON:
+            with backend.move_on_after(busy["deadline"]) as scope:
+                await client.aclose()
+            cut = scope.cancelled_caught()
+        elif mode == B_FORCEFULLY:
+            await aclose_forcefully(client)
+            cut = True
+        elif mode == B_TIMEOUT:
+            try:
+                with backend.timeout(busy["deadline"]):
+                    await client.aclose()
+                cut = False
+            except TimeoutError:
+                cut = True
+        else:
+            await client.aclose()
+            cut = False
+        world.log("hclosed_busy", conn.label, cut, conn.bg_state)
+        if cut and blocked:
+            world.fault("cancel_at_time")
+            world.probe("aclose_cut_short_while_send_lock_held")
+        elif blocked:
+            world.probe("aclose_completed_after_blocked_sender")
 
     def check_timeout(self, conn: Conn, i: int, t0: float, T: float | None, crept: int = 0) -> None:
         world = self.world
@@ -514,9 +632,9 @@ class HighHandler(AsyncStreamRequestHandler):
 
 
 # ------------------------------------------------------------------------------------------------ one run
-def _run(world: World, level: str) -> None:
-    name = "tcp-high" if level == "high" else "stream-low"
-    sc = _gen(world, level)
+def _run(world: World, level: str, busy: bool = False) -> None:
+    name = ("tcp-high-busy" if busy else "tcp-high") if level == "high" else "stream-low"
+    sc = _gen(world, level, busy)
     net = SimNet(world)
     backend = SimAsyncIOBackend(net)
     ctx = Ctx(world, net, sc, name)
@@ -574,13 +692,23 @@ def _run(world: World, level: str) -> None:
     async def drive() -> None:
         for conn in ctx.conns:
             world.at(max(world.now, conn.sc["t_conn"] * G), lambda conn=conn: connect(conn))
-        done = await wait_until(world, all_done, max_time=400.0, step=0.25)
+        # a flagged violation ends the run at once (a handler that spins under a defective library must not turn the
+        # finding into a step-cap HARNESS-ERROR); without a violation this is the old condition
+        done = await wait_until(world, lambda: ctx.violation is not None or all_done(), max_time=400.0, step=0.25)
         # a handler that was asleep when its socket was closed under it (RST, recv error) finishes its sleep first
         await asyncio.sleep(1.0)
         await settle(world, 12)
         if not done:
             bad = [c.label for c in ctx.conns if c.srv is None or not c.srv.sim_closed]
             ctx.flag("connection-closed", f"connections {bad} still open 400 virtual seconds after the peers disconnected / the handlers ended; t={world.now}")
+        # background senders of the handlers (tcp-high-busy): their connection is closed, they have been woken up
+        for c in ctx.conns:
+            for t in c.bg_tasks:
+                if not t.done():
+                    world.probe("busy_sender_still_blocked_after_close")  # not C15's business (C14/C16: teardown)
+                    world.log("bg_stuck", c.label)
+                    t.cancel()
+            await asyncio.gather(*c.bg_tasks, return_exceptions=True)
         # generator accounting is evaluated at the moment every connection is closed, before the server is stopped
         for c in ctx.conns:
             for g in c.gens:
@@ -676,4 +804,5 @@ def _final_checks(ctx: Ctx) -> None:
 HARNESSES = [
     Harness("tcp-high", lambda w: _run(w, "high"), weight=2),
     Harness("stream-low", lambda w: _run(w, "low"), weight=1),
+    Harness("tcp-high-busy", lambda w: _run(w, "high", busy=True), weight=1),
 ]
